@@ -406,8 +406,16 @@ where
             L::zero().emplace(&mut self.data).unwrap();
         } else {
             let mut iter = self.bytes_mut_iter();
-            let _ = iter.nth(len - 1);
-            L::max_value().emplace(iter.data.unwrap()).unwrap();
+            // Skip the items before the one that becomes the last.
+            if len > 1 && iter.nth(len - 2).is_none() {
+                return;
+            }
+            // `iter.data` now begins with the offset slot of the item number `len - 1`, if the vector has that many items.
+            if let Some(data) = iter.data {
+                if L::from_bytes(data).map_or(false, |offset| *offset != L::zero()) {
+                    L::max_value().emplace(data).unwrap();
+                }
+            }
         }
     }
 }
